@@ -239,6 +239,7 @@ func (f *flow) flush() {
 // Model lays out the tree.  icbX/icbY/icbW/icbH describe the initial containing block (page content box).
 type Model struct {
 	Lays []*Lay // document order, block elements only (Kind "")
+	Post []*Lay // the same boxes, children before parents (comparison order: root causes first)
 	ByID map[string]*Lay
 }
 
@@ -256,6 +257,7 @@ func (m *Model) block(b *Node, parent *Lay, cbX, cbW, cbH float64, f *flow, isRo
 	}
 	L := &Lay{Node: b, CBW: cbW, CBH: cbH, parent: parent}
 	m.Lays = append(m.Lays, L)
+	defer func() { m.Post = append(m.Post, L) }()
 	if b.ID != "" {
 		m.ByID[b.ID] = L
 	}
